@@ -69,6 +69,23 @@ def run(args):
     p = os.path.join(work, 'printv.asn1')
     shutil.copy(os.path.join(build.VERIF, 'gen', 'printer_values.asn1'), p)
     corpus.append(('printv', [p], True))
+    # constraint expressions through the printer: every tree with two binary operators from {|, ^, EXCEPT} over three range atoms, in
+    # both association shapes ((a op b) op c and a op (b op c)); the printed module must parse back to the same constraint, which
+    # it only does if the printer keeps exactly the parentheses that precedence requires
+    from checks import c09 as _c09
+    at = [_c09.Atom(1, 5), _c09.Atom(7, 9), _c09.Atom(3, 8)]
+    lines = []
+    for o1, o2 in itertools.product(('|', '^', 'EXCEPT'), repeat=2):
+        for a, b, c in itertools.product(at, repeat=3):
+            for tree in (_c09.Bin(o1, _c09.Bin(o2, a, b), c), _c09.Bin(o1, a, _c09.Bin(o2, b, c))):
+                if tree.true_set():
+                    lines.append('K%d ::= INTEGER (%s)' % (len(lines), tree.text()))
+                    lines.append('Z%d ::= OCTET STRING (SIZE(%s))' % (len(lines), tree.text()))
+    for j in range(0, len(lines), 200):
+        p = os.path.join(work, 'printc%d.asn1' % (j // 200))
+        with open(p, 'w') as f:
+            f.write('PrintC%d DEFINITIONS AUTOMATIC TAGS ::= BEGIN\n' % (j // 200) + '\n'.join(lines[j:j + 200]) + '\nEND\n')
+        corpus.append(('printc%d' % (j // 200), [p], True))
     shipped = sorted(glob.glob(os.path.join(build.REPO, 'tests/tests-asn1c-compiler/*-OK.asn1'))) + sorted(glob.glob(os.path.join(build.REPO, 'examples/*.asn1')))
     for p in shipped:
         try:
